@@ -1,4 +1,6 @@
 import Verif.Generated.FactsOK.Common
+import Verif.Generated.FactsOK.SrcAnalyzer
+import Verif.Generated.FactsOK.SrcClassify
 import Verif.Generated.FactsOK.Keys
 
 /-!
